@@ -360,6 +360,20 @@ def run_sequence(case: dict) -> dict:
         return obs
     if not disjoint_now(o):
         obs["disjoint_ok"] = False
+
+    def probe() -> None:
+        # observations (hash, ==, repr) are made BETWEEN the operations: they must not influence what comes after
+        # (a memoised hash that survives a later mutation would make equal objects hash differently)
+        try:
+            hash(o)
+        except TypeError:
+            pass
+        try:
+            o == o  # noqa: B015
+            repr(o)
+        except Exception:  # noqa: BLE001
+            pass
+    probe()
     for op in case["ops"]:
         err: Optional[BaseException] = None
         try:
@@ -379,6 +393,28 @@ def run_sequence(case: dict) -> dict:
             obs["disjoint_ok"] = False
         obs["errs"].append(err_code(err))
         obs["steps"].append(f"({state_term(o)}, {err_term(err_code(err))})")
+        probe()
+    # identity after the history: a FRESH Options with the same content must be equal to o and hash like it
+    # (Coq: equal options have equal hashes; here: the object's history, incl. the observations above, is irrelevant)
+    obs["history_hash_ok"] = True
+    try:
+        from mloda.core.abstract_plugins.components.options import Options
+        fresh = Options(group=dict(o.group), context=dict(o.context), propagate_context_keys=frozenset(o.propagate_context_keys))
+        if not (fresh == o and o == fresh):
+            obs["history_hash_ok"] = "a fresh Options with the same group/context is not equal to the object after its history"
+        else:
+            try:
+                hf: Optional[int] = hash(fresh)
+            except TypeError:
+                hf = None
+            try:
+                ho: Optional[int] = hash(o)
+            except TypeError:
+                ho = None
+            if hf != ho:
+                obs["history_hash_ok"] = f"equal Options hash differently: after its history {ho}, fresh with the same content {hf}"
+    except Exception as e:  # noqa: BLE001
+        obs["history_hash_ok"] = f"building a fresh Options from the final content raised {type(e).__name__}: {e}"[:200]
     return obs
 
 
@@ -452,6 +488,9 @@ def check_ops(rep: vlib.Reporter, rng: random.Random, n: int) -> bool:
         if not obs["disjoint_ok"]:
             report(rep, "disjoint", "disjoint:" + json.dumps(case)[:300], "a key is present in both group and context of a real Options object "
                    "after the call sequence", {"kind": "ops", "case": case})
+            found = True
+        if obs.get("history_hash_ok", True) is not True:
+            report(rep, "history-hash", "history-hash:" + json.dumps(case)[:300], str(obs["history_hash_ok"]), {"kind": "ops", "case": case})
             found = True
         if obs["init_err"] == 0 and len(case["ops"]) >= 2 and any(obs["errs"]) and not all(obs["errs"]):
             rep.nontrivial(("ops", case))
